@@ -101,33 +101,6 @@ Proof.
   apply (G false).
 Qed.
 
-(** * Clean-up (fan-out) *)
-
-Section Tick.
-  Variable sub_ok : bytes -> bool.
-  Variable sub_accepts : bytes -> Z -> bool.
-  Notation nexec := (nexec sub_ok sub_accepts).
-  Notation nstep := (nstep sub_ok sub_accepts).
-  Notation nrun_from := (nrun_from sub_ok sub_accepts).
-
-  Lemma cleanup_fold_fault e keys :
-    fold_left (cleanup_visit sub_accepts e) keys Fault = Fault.
-  Proof. induction keys as [|k keys IH]; [reflexivity|]. exact IH. Qed.
-
-  Lemma cleanup_fold e keys acc :
-    Forall (fun k => k <> []) keys ->
-    fold_left (cleanup_visit sub_accepts e) keys (Halt acc) =
-    if forallb (fun h => sub_accepts h e) (tail <$> keys)
-    then Halt (acc ++ map (fun h => NCall h e) (tail <$> keys)) else Fault.
-  Proof.
-    intros Hne. revert acc. induction Hne as [|k keys Hk _ IH]; intros acc.
-    - cbn. by rewrite app_nil_r.
-    - cbn [fold_left]. destruct k as [|x h]; [done|]. unfold cleanup_visit at 2. cbn [obind].
-      cbn [fmap list_fmap tail forallb map].
-      destruct (sub_accepts h e); cbn [andb]; [|apply cleanup_fold_fault].
-      rewrite IH. destruct (forallb _ _); [|reflexivity]. by rewrite <- app_assoc.
-  Qed.
-
   (** * Invariant of reachable states *)
 
   Definition ring_ok (s : nstate) : Prop := 1 <= count s <= 254 /\ 0 <= cur s < count s.
@@ -142,39 +115,6 @@ Section Tick.
   (** The exact outcome of [NewEpoch]. *)
   Definition tick_result (c : nctx) (s : nstate) (e : Z) : nstate :=
     let id := (cur s + 1) mod count s in tick_state s e (height c) id id.
-
-  Lemma nexec_new_epoch c s e :
-    ring_ok s -> subs_indexed s ->
-    nexec c s (NewEpoch e) =
-    if alpha c && (epoch s <? e) && forallb (fun h => sub_accepts h e) (subscribers s)
-    then Halt (tick_result c s e, map (fun h => NCall h e) (subscribers s) ++ [NNewEpoch e])
-    else Fault.
-  Proof.
-    intros [Hc Hi] (hs & _ & _ & Hk). cbn [nexec].
-    destruct (alpha c); cbn [oassert obind andb]; [|reflexivity].
-    replace (negb (e <=? epoch s)) with (epoch s <? e) by lia.
-    destruct (epoch s <? e); cbn [oassert obind andb]; [|reflexivity].
-    rewrite vm_mod_pos by lia. cbn [obind].
-    pose proof (Z.mod_pos_bound (cur s + 1) (count s) ltac:(lia)) as Hm.
-    rewrite ring_key_byte by lia. cbn [obind].
-    unfold cleanup. rewrite tick_state_eq. cbn [subs].
-    rewrite cleanup_fold by (rewrite Hk; apply imap_sub_key_nonempty).
-    fold (subscribers s). destruct (forallb _ _); [|reflexivity].
-    cbn [obind app]. unfold tick_result. cbv zeta. rewrite tick_state_eq. reflexivity.
-  Qed.
-
-  (** What each kind of operation can change. *)
-  Lemma nexec_cand_frame c s o s' ns :
-    is_cand_op o = true -> nexec c s o = Halt (s', ns) -> same_but_cands s s'.
-  Proof.
-    intros Ho H. destruct o; try discriminate Ho; cbn [nexec] in H.
-    - inv_ob H. unfold add_to_netmap in H. inv_ob H. injection H as <- <-. repeat split.
-    - inv_ob H. unfold add_to_netmap in H. inv_ob H. injection H as <- <-. repeat split.
-    - inv_ob H. injection H as <- <-. repeat split.
-    - inv_ob H. by apply update_candidate_state_spec in H as (_ & _ & H & _).
-    - inv_ob H. by apply update_candidate_state_spec in H as (_ & _ & H & _).
-    - inv_ob H. by apply update_candidate_state_spec in H as (_ & _ & H & _).
-  Qed.
 
   Lemma usc_inv s n s' :
     update_snapshot_count s n = Halt s' ->
@@ -211,6 +151,102 @@ Section Tick.
       split; intros [H|H]; auto.
   Qed.
 
+  (** * Publication *)
+
+  Lemma tick_publishes c s e :
+    tick_inv s -> epoch s < e < 2 ^ 32 ->
+    let s' := tick_result c s e in
+    r_netmap s' = Halt (filter_netmap s) /\
+    r_list_nodes s' e = mvals (cands2 s) /\
+    nodes2 s' !! four_bytes_be e = Some (cands2 s) /\
+    epoch s' = e /\ eblock s' = height c /\
+    cands s' = cands s /\ cands2 s' = cands2 s /\ count s' = count s /\
+    subs s' = subs s /\ config s' = config s.
+  Proof.
+    intros ((Hc & Hi) & Hs & He & Hl) Hlt. cbv zeta. unfold tick_result. cbv zeta.
+    rewrite tick_state_eq.
+    pose proof (Z.mod_pos_bound (cur s + 1) (count s) ltac:(lia)) as Hm.
+    assert (Hlook : tick_lists s e !! four_bytes_be e = Some (cands2 s)).
+    { unfold tick_lists. cbv zeta.
+      assert (Hnone : nodes2 s !! four_bytes_be e = None).
+      { destruct (nodes2 s !! four_bytes_be e) eqn:E; [|reflexivity]. exfalso.
+        destruct (Hl (four_bytes_be e)) as (e' & He' & Heq); [by rewrite E|].
+        apply four_bytes_be_inj in Heq; lia. }
+      rewrite Hnone. cbn [default]. rewrite (right_id_L ∅ (∪)).
+      destruct (e >? count s) eqn:Eg; [|by rewrite lookup_insert].
+      unfold drop_netmap. rewrite lookup_delete_ne; [by rewrite lookup_insert|].
+      intros Heq. apply four_bytes_be_inj in Heq; lia. }
+    split; [|split; [|split; [exact Hlook|repeat split]]].
+    - unfold r_netmap. cbn [cur]. rewrite ring_key_byte by lia. cbn [obind].
+      unfold get_snapshot. cbn [ring]. by rewrite lookup_insert.
+    - unfold r_list_nodes. cbn [nodes2]. by rewrite Hlook.
+  Qed.
+
+(** * Clean-up (fan-out) *)
+
+Section Tick.
+  Variable sub_ok : bytes -> bool.
+  Variable sub_accepts : bytes -> Z -> bool.
+  Notation nexec := (nexec sub_ok sub_accepts).
+  Notation nstep := (nstep sub_ok sub_accepts).
+  Notation nrun_from := (nrun_from sub_ok sub_accepts).
+
+  Lemma cleanup_fold_fault e keys :
+    fold_left (cleanup_visit sub_accepts e) keys Fault = Fault.
+  Proof. induction keys as [|k keys IH]; [reflexivity|]. exact IH. Qed.
+
+  Lemma cleanup_fold e keys acc :
+    Forall (fun k => k <> []) keys ->
+    fold_left (cleanup_visit sub_accepts e) keys (Halt acc) =
+    if forallb (fun h => sub_accepts h e) (tail <$> keys)
+    then Halt (acc ++ map (fun h => NCall h e) (tail <$> keys)) else Fault.
+  Proof.
+    intros Hne. revert acc. induction Hne as [|k keys Hk _ IH]; intros acc.
+    - cbn. by rewrite app_nil_r.
+    - cbn [fold_left]. destruct k as [|x h]; [done|]. unfold cleanup_visit at 2. cbn [obind].
+      cbn [fmap list_fmap tail forallb map].
+      destruct (sub_accepts h e); cbn [andb]; [|apply cleanup_fold_fault].
+      rewrite IH. destruct (forallb _ _); [|reflexivity]. by rewrite <- app_assoc.
+  Qed.
+
+
+
+  Lemma nexec_new_epoch c s e :
+    ring_ok s -> subs_indexed s ->
+    nexec c s (NewEpoch e) =
+    if alpha c && (epoch s <? e) && forallb (fun h => sub_accepts h e) (subscribers s)
+    then Halt (tick_result c s e, map (fun h => NCall h e) (subscribers s) ++ [NNewEpoch e])
+    else Fault.
+  Proof.
+    intros [Hc Hi] (hs & _ & _ & Hk). cbn [nexec].
+    destruct (alpha c); cbn [oassert obind andb]; [|reflexivity].
+    replace (negb (e <=? epoch s)) with (epoch s <? e) by lia.
+    destruct (epoch s <? e); cbn [oassert obind andb]; [|reflexivity].
+    rewrite vm_mod_pos by lia. cbn [obind].
+    pose proof (Z.mod_pos_bound (cur s + 1) (count s) ltac:(lia)) as Hm.
+    rewrite ring_key_byte by lia. cbn [obind].
+    unfold cleanup. rewrite tick_state_eq. cbn [subs].
+    rewrite cleanup_fold by (rewrite Hk; apply imap_sub_key_nonempty).
+    fold (subscribers s). destruct (forallb _ _); [|reflexivity].
+    cbn [obind app]. unfold tick_result. cbv zeta. rewrite tick_state_eq. reflexivity.
+  Qed.
+
+  (** What each kind of operation can change. *)
+  Lemma nexec_cand_frame c s o s' ns :
+    is_cand_op o = true -> nexec c s o = Halt (s', ns) -> same_but_cands s s'.
+  Proof.
+    intros Ho H. destruct o; try discriminate Ho; cbn [nexec] in H.
+    - inv_ob H. unfold add_to_netmap in H. inv_ob H. injection H as <- <-. repeat split.
+    - inv_ob H. unfold add_to_netmap in H. inv_ob H. injection H as <- <-. repeat split.
+    - inv_ob H. injection H as <- <-. repeat split.
+    - inv_ob H. by apply update_candidate_state_spec in H as (_ & _ & H & _).
+    - inv_ob H. by apply update_candidate_state_spec in H as (_ & _ & H & _).
+    - inv_ob H. by apply update_candidate_state_spec in H as (_ & _ & H & _).
+  Qed.
+
+
+
+
   Lemma nexec_subscribe c s h s' ns :
     subs_indexed s -> nexec c s (Subscribe h) = Halt (s', ns) ->
     alpha c = true /\ sub_ok h = true /\
@@ -233,7 +269,7 @@ Section Tick.
         by (unfold sub_key; f_equal; lia).
       rewrite Hkey. pose proof (skeys_insert_last (subs s) hs h Hk Hin) as Hk'.
       split; [exact Hin|]. split; [reflexivity|]. split; [reflexivity|]. split.
-      + unfold subscribers, set_subs. simpl subs. rewrite Hk'. apply imap_sub_key_tail.
+      + unfold subscribers, set_subs. simpl subs. rewrite <- (imap_sub_key_tail (hs ++ [h])). f_equal. exact Hk'.
       + exists (hs ++ [h]). split; [|split].
         * apply NoDup_app. split; [exact Hnd|]. split; [|apply NoDup_singleton].
           intros x Hx Hx'. apply elem_of_list_singleton in Hx'. by subst.
@@ -277,11 +313,13 @@ Section Tick.
         destruct (Z.ltb_spec (cur s) n); lia.
       + intros p Hp. cbn [nodes2 epoch] in *. apply resize_lists_subset in Hp. by apply Hl.
     - (* Subscribe *)
-      apply nexec_subscribe in H as (_ & _ & [(_ & -> & _)|(_ & _ & -> & _ & Hs')]); [|exact Hs|].
-      + repeat split; assumption.
+      apply nexec_subscribe in H; [|exact Hs].
+      destruct H as (_ & _ & [(_ & -> & _)|(_ & _ & -> & _ & Hs')]).
+      + split; [exact Hr|]. split; [exact Hs|]. split; [exact He|exact Hl].
       + split; [exact Hr|]. split; [exact Hs'|]. split; [exact He|exact Hl].
     - (* SetConfig *)
-      cbn [nexec] in H. inv_ob H. injection H as <- <-. repeat split; try apply Hr; assumption.
+      cbn [nexec] in H. inv_ob H. injection H as <- <-.
+      split; [exact Hr|]. split; [exact Hs|]. split; [exact He|exact Hl].
   Qed.
 
   Lemma nstep_tick_inv s co : tick_inv s -> tick_inv (nstep_state sub_ok sub_accepts s co).
@@ -322,8 +360,8 @@ Section Tick.
       exists e. unfold tick_result. cbv zeta. rewrite tick_state_eq. cbn. repeat split; lia.
     - left. cbn [nexec] in H. inv_ob H. injection H as <- <-.
       apply usc_inv in Eo as (_ & _ & r2 & _ & ->). cbn. repeat split; discriminate.
-    - left. apply nexec_subscribe in H as (_ & _ & [(_ & -> & _)|(_ & _ & -> & _)]); [| |exact Hs];
-        repeat split; discriminate.
+    - left. apply nexec_subscribe in H; [|exact Hs].
+      destruct H as (_ & _ & [(_ & -> & _)|(_ & _ & -> & _)]); repeat split; discriminate.
     - left. cbn [nexec] in H. inv_ob H. injection H as <- <-. repeat split; discriminate.
   Qed.
 
@@ -341,34 +379,4 @@ Section Tick.
     apply IH. by apply nstep_tick_inv.
   Qed.
 
-  (** * Publication *)
-
-  Lemma tick_publishes c s e :
-    tick_inv s -> epoch s < e < 2 ^ 32 ->
-    let s' := tick_result c s e in
-    r_netmap s' = Halt (filter_netmap s) /\
-    r_list_nodes s' e = mvals (cands2 s) /\
-    nodes2 s' !! four_bytes_be e = Some (cands2 s) /\
-    epoch s' = e /\ eblock s' = height c /\
-    cands s' = cands s /\ cands2 s' = cands2 s /\ count s' = count s /\
-    subs s' = subs s /\ config s' = config s.
-  Proof.
-    intros ((Hc & Hi) & Hs & He & Hl) Hlt. cbv zeta. unfold tick_result. cbv zeta.
-    rewrite tick_state_eq.
-    pose proof (Z.mod_pos_bound (cur s + 1) (count s) ltac:(lia)) as Hm.
-    assert (Hlook : tick_lists s e !! four_bytes_be e = Some (cands2 s)).
-    { unfold tick_lists. cbv zeta.
-      assert (Hnone : nodes2 s !! four_bytes_be e = None).
-      { destruct (nodes2 s !! four_bytes_be e) eqn:E; [|reflexivity]. exfalso.
-        destruct (Hl (four_bytes_be e)) as (e' & He' & Heq); [by rewrite E|].
-        apply four_bytes_be_inj in Heq; lia. }
-      rewrite Hnone. cbn [default]. rewrite (right_id_L ∅ (∪)).
-      destruct (e >? count s) eqn:Eg; [|by rewrite lookup_insert].
-      unfold drop_netmap. rewrite lookup_delete_ne; [by rewrite lookup_insert|].
-      intros Heq. apply four_bytes_be_inj in Heq; lia. }
-    split; [|split; [|split; [exact Hlook|repeat split]]].
-    - unfold r_netmap. cbn [cur]. rewrite ring_key_byte by lia. cbn [obind].
-      unfold get_snapshot. cbn [ring]. by rewrite lookup_insert.
-    - unfold r_list_nodes. cbn [nodes2]. by rewrite Hlook.
-  Qed.
 End Tick.
